@@ -50,6 +50,7 @@ def make_case(seed, facts, index=0, weights=None):
         "huge": rng.random() < 0.004,
         "dust": rng.random() < 0.1,
         "new_year_start": rng.random() < 0.08,
+        "tight": rng.random() < 0.15,
     }
     for flag, prob in sorted((weights or {}).items()):
         swarm[flag] = rng.random() < prob
